@@ -6,7 +6,8 @@
 
    Sizes rows / cols / number of mines are arbitrary parameters.  The reward function is the shipped
    DefaultRewardFn with its three constants as integer codes (re = revealed empty square, rm = revealed
-   mine, ri = invalid action; the environment's default is 1, 0, 0).                                  *)
+   mine, ri = invalid action; the environment's default is 1, 0, 0; the harness sends the float x 4 so that
+   dyadic custom constants stay exact -- the model only ever SELECTS one of the three codes).          *)
 Require Import JV.Base.Prelude JV.Base.JaxIndex JV.Base.Codec JV.Base.TimeStep.
 
 Record state := mkS { board : list (list Z); step_count : Z; mines : list Z }.
@@ -120,6 +121,28 @@ Definition rules_step (rc : rcfg) (rows cols : Z) (s : state) (r c : Z) : state 
   else if revealed rows cols b' =? rows * cols - zlen (mines s) then (s', termination 1 [r_empty rc])
   else (s', transition 1 [r_empty rc]).
 
+(* revealed squares that carry a mine (0, or 1 in the terminal state of a lost game) *)
+Definition mine_revealed (rows cols : Z) (s : state) : Z :=
+  sum_cells rows cols (fun r c => b2z ((0 <=? cell (board s) r c) && is_mine rows cols (mines s) r c)).
+(* number of mined squares of the board *)
+Definition mined_squares (rows cols : Z) (ms : list Z) : Z :=
+  sum_cells rows cols (fun r c => b2z (is_mine rows cols ms r c)).
+(* the value ranges announced by observation_spec: board in [-1, 8], step_count in [0, rows*cols - num_mines] *)
+Definition spec_ok_b (rows cols nm : Z) (s : state) : bool :=
+  forallb (fun r => forallb (fun c => (-1 <=? cell (board s) r c) && (cell (board s) r c <=? 8)) (zrange cols)) (zrange rows)
+  && (0 <=? step_count s) && (step_count s <=? rows * cols - nm).
+Definition in_spec (rows cols : Z) (a : Z * Z) : bool := inb rows (fst a) && inb cols (snd a).
+
+(* an episode: the steps up to and including the first LAST *)
+Fixpoint run (rc : rcfg) (rows cols : Z) (s : state) (acts : list (Z * Z)) : list (state * tstep) :=
+  match acts with
+  | [] => []
+  | a :: rest => let p := step rc rows cols s (fst a) (snd a) in
+                 p :: (if st (snd p) =? LAST then [] else run rc rows cols (fst p) rest)
+  end.
+Definition ret (tr : list (state * tstep)) : Z := zsum (map (fun p => zsum (reward (snd p))) tr).
+Definition final (s : state) (tr : list (state * tstep)) : state := fst (last tr (s, restart 1)).
+
 (* ---------- wire format ---------- *)
 Definition dec_state (rows cols nm : Z) (l : list Z) : state * list Z :=
   let (b, l) := take_grid rows cols l in
@@ -141,7 +164,7 @@ Definition minesweeper_step_io (l : list Z) : list Z :=
   let (s, l) := dec_state rows cols nm l in
   let (r, l) := take1 l in let (c, _) := take1 l in
   let (s', t) := step rc rows cols s r c in
-  enc_state s' ++ enc_ts t ++ enc_obs (zlen (mines s')) s'.
+  enc_state s' ++ enc_ts t ++ enc_obs nm s'.
 (* @export minesweeper_step_io *)
 
 (* the same transition through the declarative rules *)
@@ -158,18 +181,36 @@ Definition minesweeper_init_io (l : list Z) : list Z :=
   let '((rows, cols, nm, rc), l) := dec_cfg l in
   let (locs, _) := taken nm l in
   let (s, t) := init rows cols locs in
-  enc_state s ++ enc_ts t ++ enc_obs (zlen (mines s)) s ++ [b2z (valid_draw rows cols nm locs)].
+  enc_state s ++ enc_ts t ++ enc_obs nm s ++ [b2z (valid_draw rows cols nm locs)].
 (* @export minesweeper_init_io *)
 
 (* verified checkers on IMPLEMENTATION states:
-   [Phys_b; Safe_b; safe_revealed; revealed; mask = legal_b everywhere] *)
+   [Phys_b; Safe_b; safe_revealed; revealed; mask = legal_b everywhere; mine_revealed; mined_squares; spec_ok_b] *)
 Definition minesweeper_check_io (l : list Z) : list Z :=
   let '((rows, cols, nm, rc), l) := dec_cfg l in
   let (s, _) := dec_state rows cols nm l in
   [ b2z (Phys_b rows cols nm s); b2z (Safe_b rows cols s); safe_revealed rows cols s; revealed rows cols (board s);
     b2z (list_eqb (list_eqb Bool.eqb) (action_mask (board s))
-           (map (fun r => map (fun c => legal_b (board s) r c) (zrange cols)) (zrange rows))) ].
+           (map (fun r => map (fun c => legal_b (board s) r c) (zrange cols)) (zrange rows)));
+    mine_revealed rows cols s; mined_squares rows cols (mines s); b2z (spec_ok_b rows cols nm s) ].
 (* @export minesweeper_check_io *)
+
+Fixpoint dec_acts (n : nat) (l : list Z) : list (Z * Z) :=
+  match n, l with S n', r :: c :: t => (r, c) :: dec_acts n' t | _, _ => [] end.
+(* in: cfg, drawn locations, k, k actions (r c) -> the model's whole episode from reset:
+   [number of steps until the first LAST (or k); return; last step type; safe_revealed, mine_revealed of the final state;
+    final step_count; all actions in spec] *)
+Definition minesweeper_episode_io (l : list Z) : list Z :=
+  let '((rows, cols, nm, rc), l) := dec_cfg l in
+  let (locs, l) := taken nm l in
+  let (k, l) := take1 l in
+  let acts := dec_acts (Z.to_nat k) l in
+  let s0 := fst (init rows cols locs) in
+  let tr := run rc rows cols s0 acts in
+  let sf := final s0 tr in
+  [ zlen tr; ret tr; st (snd (last tr (s0, restart 1))); safe_revealed rows cols sf; mine_revealed rows cols sf;
+    step_count sf; b2z (forallb (in_spec rows cols) acts) ].
+(* @export minesweeper_episode_io *)
 
 (* in: cfg, mine locations -> for every square the number the code would reveal (count_adjacent, padded
    dynamic_slice) followed by the declarative adj_count of every square *)
